@@ -34,18 +34,21 @@ K0 == [ev |-> "key", name |-> "", code |-> 101, mods |-> 0, lower |-> TRUE, shif
 KP(n, pam, b) == [K0 EXCEPT !.name = n, !.code = 0, !.deckpam = pam, !.bytes = b]
 ASSUME \A n \in Keypad \cup KeypadOps \cup {"KP_ENTER"} :
           /\ ModeBytes(KP(n, FALSE, <<>>)) = {<<KeypadChar(n)>>}
-          /\ ModeBytes(KP(n, FALSE, <<>>)) \subseteq ModeBytes(KP(n, TRUE, <<>>))
-          /\ <<27, 79, KeypadFinal(n)>> \in ModeBytes(KP(n, TRUE, <<>>))
+          \* without text (Num Lock not on; Enter never has any) application mode means the SS3 code alone; with
+          \* text (Num Lock on) xterm keeps sending the character, a VT100 the code: both
+          /\ ModeBytes(KP(n, TRUE, <<>>)) = {<<27, 79, KeypadFinal(n)>>}
+          /\ ModeBytes([KP(n, TRUE, <<>>) EXCEPT !.text = <<KeypadChar(n)>>]) = {<<27, 79, KeypadFinal(n)>>, <<KeypadChar(n)>>}
           /\ KeyWhy(KP(n, TRUE, <<>>)) = "nothing-written" /\ KeyWhy(KP(n, FALSE, <<27, 79, KeypadFinal(n)>>)) = "mode-selected-encoding"
           \* (the records carry no text: the keys as a host without the kitty protocol delivers them; with text the same holds)
           /\ \A t \in {<<>>, <<KeypadChar(n)>>} :
                LET chr == [KP(n, TRUE, <<KeypadChar(n)>>) EXCEPT !.text = t, !.gottext = <<KeypadChar(n)>>, !.gotname = IF n = "KP_ENTER" THEN "ENTER" ELSE ""]
                    ss3 == [KP(n, TRUE, <<27, 79, KeypadFinal(n)>>) EXCEPT !.text = t, !.gotname = n, !.gottext = <<>>] IN
-               /\ KeyWhy(ss3) = "ok" /\ KeyWhy(chr) = "ok" /\ KeyWhy([chr EXCEPT !.deckpam = FALSE]) = "ok"
+               /\ KeyWhy(ss3) = "ok" /\ KeyWhy([chr EXCEPT !.deckpam = FALSE]) = "ok"
+               /\ KeyWhy(chr) = (IF t = <<>> THEN "mode-selected-encoding" ELSE "ok")
                /\ KeyWhy([ss3 EXCEPT !.deckpam = FALSE]) = "mode-selected-encoding"
                /\ KeyWhy([ss3 EXCEPT !.gotname = "KP_BEGIN"]) = "keypad-code-not-decoded-as-its-key"
                /\ KeyWhy([ss3 EXCEPT !.n = 0]) = "not-one-key-event"
-               /\ KeyWhy([chr EXCEPT !.gottext = <<>>, !.gotname = ""]) = "keypad-character-not-decoded"
+               /\ KeyWhy([chr EXCEPT !.deckpam = FALSE, !.gottext = <<>>, !.gotname = ""]) = "keypad-character-not-decoded"
                /\ KeyWhy([chr EXCEPT !.bytes = <<>>]) = "nothing-written" /\ KeyWhy([chr EXCEPT !.bytes = <<>>, !.deckpam = FALSE]) = "nothing-written"
 ASSUME \A n \in KeypadNav : \A m \in 0..7 :
           /\ KeyWhy([KP(n, FALSE, <<27, 91, 68>>) EXCEPT !.mods = m, !.gotname = Twin(n), !.gotmods = m]) = "ok"
